@@ -84,16 +84,28 @@ GroupOK(N, g) == LET ks == Kids(N, g.id)
                  IN IF ks = {} THEN TRUE
                     ELSE IF solid = {} THEN BoxOf(g) \in {Zero, BBox(ks)}
                     ELSE BoxOf(g) \in {BBox(ks), BBox(solid)}
-GrpNames == <<"GroupBoxIsBBox", "ChildFrameEqualsFrame", "LeafAsRequested", "OthersUnchanged">>
+GrpNames == <<"GroupBoxIsBBox", "ChildFrameEqualsFrame", "LeafAsRequested", "OthersUnchanged", "MovedAsRequested">>
 \* a : [op |-> "leaf", parent, x, y, cx, cy]  |  [op |-> "group", parent]  |  [op |-> "groupOf", ids]
+\*   | [op |-> "move", id, x, y, cx, cy]   a member's own frame is set through its left / top / width / height setters.  The statement
+\*     speaks of ADDITIONS: a setter does not touch the groups around the member, which may be out of date until the next addition
+\*     below them - and then every group on the way up to the slide is the bounding box of its members again.
+RECURSIVE Chain(_, _)
+Chain(N, gid) == IF gid = 0 THEN {} ELSE {gid} \cup Chain(N, (CHOOSE n \in NodeSet(N) : n.id = gid).parent)
+\* the groups an addition obliges: the group that received the member and every group around it; the group made from existing shapes
+Touched(T, a) == CASE a.op = "leaf"    -> Chain(T, a.parent)
+                   [] a.op = "groupOf" -> IF a.ids = {} THEN {} ELSE {T[Len(T)].id}
+                   [] OTHER            -> {}          \* an EMPTY group changes no bounding box (its frame may or may not count); a move obliges nobody
 GrpHolds(n, S, a, T) ==
-  CASE n = "GroupBoxIsBBox"        -> \A g \in NodeSet(T) : g.grp => GroupOK(T, g)
-    [] n = "ChildFrameEqualsFrame" -> \A g \in NodeSet(T) : g.grp => ChBoxOf(g) = BoxOf(g)
+  CASE n = "GroupBoxIsBBox"        -> \A g \in NodeSet(T) : (g.grp /\ g.id \in Touched(T, a)) => GroupOK(T, g)
+    [] n = "ChildFrameEqualsFrame" -> \A g \in NodeSet(T) : (g.grp /\ g.id \in Touched(T, a)) => ChBoxOf(g) = BoxOf(g)
     [] n = "LeafAsRequested"       -> a.op = "leaf" => (Len(T) = Len(S) + 1 /\ LET l == T[Len(T)] IN
                                           ~l.grp /\ l.parent = a.parent /\ l.x = a.x /\ l.y = a.y /\ l.cx = a.cx /\ l.cy = a.cy)
+    [] n = "MovedAsRequested"      -> a.op = "move" => (Len(T) = Len(S) /\ a.id \in DOMAIN T /\ BoxOf(T[a.id]) = [x |-> a.x, y |-> a.y, cx |-> a.cx, cy |-> a.cy])
     [] n = "OthersUnchanged"       -> \A i \in DOMAIN S : i \in DOMAIN T /\ T[i].id = S[i].id /\ T[i].grp = S[i].grp
-                                          /\ (~S[i].grp => (BoxOf(T[i]) = BoxOf(S[i])
-                                                            /\ (a.op # "groupOf" => T[i].parent = S[i].parent)))
+                                          /\ (~S[i].grp => ((a.op = "move" /\ a.id = i) \/ BoxOf(T[i]) = BoxOf(S[i]))
+                                                            /\ (a.op # "groupOf" => T[i].parent = S[i].parent))
+                                          \* a group no addition obliges keeps its frame and child window, whatever they were
+                                          /\ ((S[i].grp /\ S[i].id \notin Touched(T, a)) => (BoxOf(T[i]) = BoxOf(S[i]) /\ ChBoxOf(T[i]) = ChBoxOf(S[i])))
 GrpFailing(S, a, T) == {GrpNames[i] : i \in {j \in DOMAIN GrpNames : ~GrpHolds(GrpNames[j], S, a, T)}}
 
 \* Impl layer: recalculate_extents upward from the group that received a member (CT_GroupShape.recalculate_extents)
@@ -120,6 +132,7 @@ GrpImplStep(N, a) ==
                               chx |-> 0, chy |-> 0, chcx |-> 0, chcy |-> 0])
              N2 == [i \in DOMAIN N1 |-> IF N1[i].id \in a.ids THEN [N1[i] EXCEPT !.parent = gid] ELSE N1[i]]
          IN IF a.ids = {} THEN N1 ELSE Recalc(N2, gid)
+    [] a.op = "move" -> [N EXCEPT ![a.id].x = a.x, ![a.id].y = a.y, ![a.id].cx = a.cx, ![a.id].cy = a.cy]     \* the setters write the member's own a:xfrm only
 
 \* ============================================================ FREEFORM
 \* ops: k \in {"move", "line", "close"};  pen points are the builder start plus every move/line vertex
